@@ -1,5 +1,107 @@
-(* Properties/C05.v -- placeholder, being written *)
-From RV Require Import Base.Prelude Name.NameModel Wire.WireTypes Cache.CacheModel Cache.CacheSpec Cache.CacheProofs.
+(* Properties/C05.v -- "The cache never serves a record past its TTL".
+   Statements only; each is closed by [exact lemma] and followed by Print Assumptions.
+
+   Setting.  [run tb ops (with_desired_size d) 0] plays a history of SharedCache
+   operations (insert, insert_all, get, get_without_checking_expiration, prune, clock
+   advance) on the model of cache.rs, starting from an empty cache at virtual time 0.
+   [tb] is the way PriorityQueue::pop breaks ties; every theorem holds for every [tb]
+   satisfying [tie_ok].  [last_insert h k] is the (instant, TTL) of the last insertion
+   of key k = (name, type, data) in history h that the shared cache did not skip (TTL > 0);
+   [time_of h] is the clock after h.  Time is in nanoseconds, TTLs in seconds.
+
+   Interpretation (reported): Cache::get drops records whose remaining *whole* seconds
+   are 0, so "has not expired" in the last clause of the property is read as "has at
+   least one whole second left" ([C05_last_second_withheld] shows the code really
+   withholds a record during its last incomplete second). *)
+From RV Require Import Base.Prelude Name.NameModel Wire.WireTypes
+  Cache.CacheFacts Cache.CacheModel Cache.CacheSpec Cache.CacheInsert Cache.CacheCount Cache.CachePrune Cache.CacheProofs.
+
+(* never_served_expired + ttl_not_exceeding_remaining: a record returned by get at step i
+   was last inserted at t0 with TTL T; now < t0 + T; the reported TTL fits in the time left *)
+Theorem C05_never_served_expired : forall tb, tie_ok tb ->
+  forall desired ops c now outs i name qt rrs r,
+  run tb ops (with_desired_size desired) 0 = Ok (c, now, outs) ->
+  nth_error ops i = Some (Get name qt) -> nth_error outs i = Some (ORRs rrs) -> In r rrs ->
+  exists t0 T,
+    last_insert (firstn i ops) (rr_key r) = Some (t0, T) /\
+    time_of (firstn i ops) < t0 + T * NS_PER_S /\
+    rr_ttl r * NS_PER_S <= t0 + T * NS_PER_S - time_of (firstn i ops) /\
+    1 <= rr_ttl r /\ rr_name r = name /\ rr_class r = RC_IN.
+Proof. exact served_record_is_live. Qed.
+Print Assumptions C05_never_served_expired.
+
+(* the raw getter may return a record whose time is up, but never overstates the time left *)
+Theorem C05_ttl_not_exceeding_remaining : forall tb, tie_ok tb ->
+  forall desired ops c now outs i name qt rrs r,
+  run tb ops (with_desired_size desired) 0 = Ok (c, now, outs) ->
+  nth_error ops i = Some (GetRaw name qt) -> nth_error outs i = Some (ORRs rrs) -> In r rrs ->
+  exists t0 T,
+    last_insert (firstn i ops) (rr_key r) = Some (t0, T) /\
+    rr_ttl r * NS_PER_S <= t0 + T * NS_PER_S - time_of (firstn i ops) /\
+    rr_name r = name /\ rr_class r = RC_IN.
+Proof. exact raw_record_ttl_bound. Qed.
+Print Assumptions C05_ttl_not_exceeding_remaining.
+
+(* ttl0_not_stored: a TTL-0 insert leaves the state untouched, and after any history
+   every stored record stems from an insertion with TTL > 0 and expires exactly TTL later *)
 Theorem C05_ttl0_not_stored_step : forall c now r, rr_ttl r = 0 -> shared_insert c now r = Ok c.
 Proof. exact ttl0_not_stored_step. Qed.
 Print Assumptions C05_ttl0_not_stored_step.
+
+Theorem C05_ttl0_not_stored : forall tb, tie_ok tb ->
+  forall desired ops c now outs k e,
+  run tb ops (with_desired_size desired) 0 = Ok (c, now, outs) -> abs_map c k = Some e ->
+  exists t0 T, last_insert ops k = Some (t0, T) /\ 0 < T /\ e = t0 + T * NS_PER_S.
+Proof. exact stored_record_stamp. Qed.
+Print Assumptions C05_ttl0_not_stored.
+
+(* reinsert_restarts_no_duplicate: the new expiry is now + TTL whatever was stored
+   before, nothing else changes, the record count does not grow; and no answer lists a
+   (name, type, data) twice ([C05_live_record_is_returned], second conjunct) *)
+Theorem C05_reinsert_restarts_no_duplicate : forall c now r c',
+  Inv c -> 0 < rr_ttl r -> shared_insert c now r = Ok c' ->
+  abs_map c' (rr_key r) = Some (now + rr_ttl r * NS_PER_S) /\
+  (forall k, k <> rr_key r -> abs_map c' k = abs_map c k) /\
+  (abs_map c (rr_key r) <> None -> c_size c' = c_size c).
+Proof. exact reinsert_restarts. Qed.
+Print Assumptions C05_reinsert_restarts_no_duplicate.
+
+(* live_record_is_returned: a cached record (not evicted, not pruned) with at least one
+   whole second left is returned for its type and for ANY, data unchanged, TTL = whole
+   seconds left; [Inv c] holds after every history (C15_inv_after_history) *)
+Theorem C05_live_record_is_returned : forall c now name t d e qt c' rrs,
+  Inv c -> abs_map c (name, t, d) = Some e -> NS_PER_S <= e - now -> cache_qmatch qt t ->
+  get c now name qt = (c', rrs) ->
+  In {| rr_name := name; rr_type := t; rr_class := RC_IN; rr_ttl := remaining e now; rr_data := d |} rrs /\
+  NoDup (map rr_key rrs).
+Proof. exact live_record_is_returned. Qed.
+Print Assumptions C05_live_record_is_returned.
+
+Theorem C05_last_second_withheld : forall c now name qt c' rrs r e,
+  Inv c -> get c now name qt = (c', rrs) -> abs_map c (rr_key r) = Some e -> e - now < NS_PER_S -> ~ In r rrs.
+Proof. exact last_second_withheld. Qed.
+Print Assumptions C05_last_second_withheld.
+
+(* lookups are exactly the abstract answers (and every operation refines the abstract cache) *)
+Theorem C05_step_refines : forall tb, tie_ok tb -> forall c now o,
+  Inv c ->
+  exists c' now' x, step tb c now o = Ok (c', now', x) /\ Inv c' /\ c_desired c' = c_desired c /\
+    abs_step (abs_map c) (abs_lru c) now (c_desired c) o (abs_map c') (abs_lru c') now' x.
+Proof. exact step_refines. Qed.
+Print Assumptions C05_step_refines.
+
+(* ---- the hypotheses are satisfiable: a history with re-insertion and partial expiry ---- *)
+Definition ex_a : dname := {| labels := [[97]; []]; nlen := 3 |}.
+Definition ex_rr (ttl : N) : rr :=
+  {| rr_name := ex_a; rr_type := RT_A; rr_class := RC_IN; rr_ttl := ttl; rr_data := RD_A 16909060 |}.
+Definition ex_history : list op :=
+  [Insert (ex_rr 2); Advance 1500000000; Insert (ex_rr 300); Advance 2500000000; Get ex_a RT_A;
+   Insert (ex_rr 0); Advance 296000000000; Get ex_a QT_Wildcard; Advance 500000001; Get ex_a RT_A].
+
+Example C05_example :
+  exists c now,
+    run tb_first ex_history (with_desired_size 512) 0 =
+    Ok (c, now, [OUnit; OUnit; OUnit; OUnit; ORRs [ex_rr 297]; OUnit; OUnit; ORRs [ex_rr 1]; OUnit; ORRs []]) /\
+    last_insert (firstn 4 ex_history) (rr_key (ex_rr 297)) = Some (1500000000, 300) /\
+    time_of (firstn 4 ex_history) = 4000000000.
+Proof. eexists _, _. split; [vm_compute; reflexivity|]. split; vm_compute; reflexivity. Qed.
